@@ -26,8 +26,8 @@ def float(x):  # noqa: A001 — overflow-safe: a huge exact rational becomes ±i
 
 
 ID = "C01"
-LEAN_TARGETS = ["Strengths.Props.C01", "Strengths.Props.C01Dxdtf"]
-PROP_FILES = ["Strengths/Props/C01.lean", "Strengths/Props/C01Dxdtf.lean"]
+LEAN_TARGETS = ["Strengths.Props.C01", "Strengths.Props.C01Dxdtf", "Strengths.Props.C01Total"]
+PROP_FILES = ["Strengths/Props/C01.lean", "Strengths/Props/C01Dxdtf.lean", "Strengths/Props/C01Total.lean"]
 GEN_GROUPS = ["Units", "IndexPy", "EngineCpp", "KineticsPy"]
 RULE = ("random reaction networks (1-3 species, 0-3 reactions, orders 0-4 per side incl. empty sides and repeated species, "
         "scalar / per-environment k, D, density with and without 'default', zeros) on grids (w,h,d with all mixes of "
@@ -48,9 +48,12 @@ TOL = 1e-9
 
 
 def out_of_time(ctx, extra=0):
-    """stop generating new cases: quick tier after 30 s of wall time (the check must end within 60 s), thorough after 10 min"""
+    """stop generating new cases: quick tier after 28 s of HARNESS time (measured from the first call, so that a cold Lean
+    build of a scratch copy does not eat the budget; the whole check must end within 60 s), thorough after 10 min"""
     import time
-    return (time.time() - ctx.t0) > ((30 if ctx.tier == "quick" else 600) + extra)
+    if not hasattr(ctx, "_h0"):
+        ctx._h0 = time.time()
+    return (time.time() - ctx._h0) > ((28 if ctx.tier == "quick" else 600) + extra)
 
 
 def phys_dump(phys):
@@ -210,6 +213,56 @@ def run_kinetics(ctx, jobs):
                     ctx.disagree("dstate_whole", case, [float(v) for v in whole[0]], mw)
 
 
+def pick_reassignment(rng, phys, system):
+    """choose a reaction, a side and a new bare rate constant (in the reaction's own units system); returns the recipe and
+    the physical system after the assignment `reaction.kf = v` / `reaction.kr = v` (a scalar applies to every environment)"""
+    k = rng.randrange(len(phys["reacs"]))
+    side = rng.choice(["kf", "kr"])
+    r = system.network.reactions[k]
+    ru = L.sys_of(r.units_system)
+    order = sum(phys["reacs"][k]["sub" if side == "kf" else "prod"])
+    dim = L.k_dim(order)
+    v = L.nice_float(Fraction(rng.choice([0.9, 2.2, 0.35])) * L.si_factor(L.DEFAULT_SYS, dim) / L.si_factor(ru, dim))
+    return {"reaction": k, "side": side, "value": v}
+
+
+def apply_reassignment(phys, system, rec):
+    """perform the assignment on the real object and return the updated physical system"""
+    import copy
+    k, side, v = rec["reaction"], rec["side"], rec["value"]
+    r = system.network.reactions[k]
+    ru = L.sys_of(r.units_system)
+    setattr(r, side, v)                      # through the property setter, like a user would
+    order = sum(phys["reacs"][k]["sub" if side == "kf" else "prod"])
+    si = Fraction(v) * L.si_factor(ru, L.k_dim(order))
+    phys2 = copy.deepcopy(phys)
+    phys2["reacs"][k][side] = [si] * len(phys2["reacs"][k][side])
+    return phys2
+
+
+def check_dxdtf_values(ctx, f, xU, phys, chem, U, case, key, what):
+    """one call of a closure returned by make_dxdtf against the rate law; returns the output or None"""
+    ns = phys["ns"]
+    fq, fr = L.si_factor(U, L.D_QTY), L.si_factor(U, L.D_RATE)
+    orc = L.oracle_rate(phys, [Fraction(v) * fq for v in xU])
+    try:
+        out = [float(v) for v in f(0.0, list(xU))]
+    except Exception as ex:  # noqa
+        ctx.violation(key + ":raises", "%s raised %s" % (what, type(ex).__name__), case, impl=type(ex).__name__)
+        return None
+    if not all(abs(v) < 1e250 for v in out + list(xU)):
+        ctx.count("dxdtf_overflow_skipped")
+        return None
+    for s in range(ns):
+        exp, mag = (Fraction(0), Fraction(0)) if chem[s] else orc[s]
+        if not close(out[s], exp / fr, mag / fr, rel=TOL):
+            ctx.violation(key + ":value", "%s: entry %d is %r (in %s), the rate law gives %r%s" % (
+                what, s, out[s], U, float(exp / fr), " (the species is chemostated)" if chem[s] else ""),
+                dict(case, s=s, x_call=list(xU)), impl=out[s], expected=rstr(exp / fr))
+            return None
+    return out
+
+
 def run_dxdtf(ctx, jobs):
     ops = []
     for jb in jobs:
@@ -224,8 +277,9 @@ def run_dxdtf(ctx, jobs):
         fq, fr = L.si_factor(U, L.D_QTY), L.si_factor(U, L.D_RATE)
         x_si = [Fraction(v) * fq for v in jb["xU"]]
         orc = L.oracle_rate(phys, x_si)
-        chem = [int(v) for v in system.chemostats]
-        case = {"kind": "dxdtf", "desc": jb["desc"], "phys": phys_dump(phys), "U": list(U), "xU": jb["xU"], "chem": chem}
+        chem = list(jb["exp_chem"]) if jb.get("exp_chem") is not None else [int(v) for v in system.chemostats]
+        case = {"kind": "dxdtf", "desc": jb["desc"], "phys": phys_dump(phys), "U": list(U), "xU": jb["xU"], "chem": [int(v) for v in system.chemostats],
+                "exp_chem": chem}
         try:
             f = system.make_dxdtf(L.us_obj(U))
             out = [float(v) for v in f(0.0, list(jb["xU"]))]
@@ -250,6 +304,39 @@ def run_dxdtf(ctx, jobs):
                 mv = [rparse(v) for v in m["ok"]]
                 if len(mv) != len(out) or not all(close(o, q, orc[s][1] / fr, rel=TOL) for s, (o, q) in enumerate(zip(out, mv))):
                     ctx.disagree("dxdtf", case, out, m["ok"])
+        if not (out and out[0] == "error"):
+            # ---- the returned closure is a function of (t, x): call it again, on other states, and integrate two steps
+            mx = max([abs(v) for v in jb["xU"]] + [0.0])
+            x2 = [v * 1.5 + 0.25 * mx for v in jb["xU"]]
+            o2 = check_dxdtf_values(ctx, f, x2, phys, chem, U, dict(case, sequence="second call"), "dxdtf-repeat", "second call of the function returned by make_dxdtf")
+            ctx.count("dxdtf_repeated_calls")
+            if o2 is not None:
+                mo = max([abs(v) for v in o2] + [0.0])
+                h = (0.05 * max(abs(v) for v in x2) / mo) if (mo > 0 and mo < 1e300) else 0.0     # a step that moves amounts by <= 5 %
+                x3 = [a + h * b for a, b in zip(x2, o2)]
+                o3 = check_dxdtf_values(ctx, f, x3, phys, chem, U, dict(case, sequence="third call (after an explicit step)"), "dxdtf-repeat",
+                                        "third call of the function returned by make_dxdtf")
+                if o3 is not None:
+                    again = [float(v) for v in f(0.0, list(jb["xU"]))]
+                    if again != out:
+                        ctx.violation("dxdtf-repeat:pure", "the function returned by make_dxdtf gives %r, then %r for the same (t, x)" % (out, again), case,
+                                      impl=again, expected=out)
+            # ---- object re-use: assign a rate constant through the property setter, ask for the closure again
+            if phys["reacs"]:
+                sys2 = system.copy()
+                rec = pick_reassignment(ctx.rng, phys, sys2)
+                phys2 = apply_reassignment(phys, sys2, rec)
+                case2 = dict(case, kind="reuse-dxdtf", reassign=rec)
+                ctx.case((fingerprint(jb["desc"]), "reuse-dxdtf", rec["reaction"], rec["side"]), nontrivial=True)
+                ctx.count("reuse_dxdtf")
+                try:
+                    f2 = sys2.make_dxdtf(L.us_obj(U))
+                except Exception as ex:  # noqa
+                    ctx.violation("reuse:raises", "make_dxdtf after assigning %s raised %s" % (rec["side"], type(ex).__name__), case2)
+                    f2 = None
+                if f2 is not None:
+                    check_dxdtf_values(ctx, f2, jb["xU"], phys2, chem, U, case2, "reuse-dxdtf",
+                                       "make_dxdtf after `reaction.%s = %r` (the closure had been built once before the assignment)" % (rec["side"], rec["value"]))
 
 
 def euler_run(system, script_units, dt_nat, nsteps):
@@ -265,6 +352,17 @@ def euler_run(system, script_units, dt_nat, nsteps):
     out = eng.get_output()
     eng.finalize()
     return script, out
+
+
+def euler_rerun(script, nsteps):
+    """run the SAME script object again (after the caller modified it)"""
+    eng = common.load_engine("euler", "plain")
+    eng.setup(script)
+    for _ in range(nsteps):
+        eng.iterate()
+    out = eng.get_output()
+    eng.finalize()
+    return out
 
 
 def run_euler(ctx, jobs):
@@ -313,6 +411,31 @@ def run_euler(ctx, jobs):
             if not close(ss[kstep][0] * float(ft), kstep * dt_si, dt_si, rel=1e-9):
                 ctx.violation("euler-time", "Euler sample %d is stamped t=%r s, expected %r" % (kstep, ss[kstep][0] * float(ft), float(kstep * dt_si)), case)
                 break
+        # ---- object re-use: the same script object, one rate constant re-assigned through the property setter, run again
+        if phys["reacs"] and jb.get("reuse_script"):
+            rec = pick_reassignment(ctx.rng, phys, script.system)
+            phys2 = apply_reassignment(phys, script.system, rec)
+            case2 = dict(case, kind="reuse-euler", reassign=rec)
+            ctx.case((fp, "reuse-euler", rec["reaction"], rec["side"]), nontrivial=True)
+            ctx.count("reuse_script")
+            try:
+                traj2 = euler_rerun(script, 2)
+                ss2 = engine_io.samples(traj2)
+                fq2 = L.si_factor(L.sys_of(traj2.data.units.sys), L.D_QTY)
+                if len(ss2) >= 2 and all(abs(v) < 1e150 for v in ss2[0][1] + ss2[1][1]):
+                    x0 = [Fraction(v) * fq2 for v in ss2[0][1]]
+                    x1 = [Fraction(v) * fq2 for v in ss2[1][1]]
+                    orc2 = L.oracle_rate(phys2, x0)
+                    for e in range(ns * n):
+                        exp = x0[e] if chem[e] else x0[e] + dt_si * orc2[e][0]
+                        if not close(float(x1[e]), exp, abs(x0[e]) + dt_si * orc2[e][1], rel=TOL):
+                            ctx.violation("reuse-euler", "after `script.system.network.reactions[%d].%s = %r` and a second run of the same script, Euler sample 1 "
+                                          "entry %d is %r, x0 + dt*rate(x0) with the new constant = %r" % (rec["reaction"], rec["side"], rec["value"], e, float(x1[e]), float(exp)),
+                                          dict(case2, e=e), impl=float(x1[e]), expected=rstr(exp))
+                            break
+            except Exception as ex:  # noqa
+                ctx.violation("reuse:raises", "second run of the script raised %s" % type(ex).__name__, case2)
+            continue      # the script object no longer describes `desc`: no marshalling correspondence for this job
         # correspondence: marshalling + one model step in ENGINE units
         arr = engine_io.system_arrays(script, False)
         Ue = L.sys_of(arr["us"])
@@ -347,8 +470,54 @@ def run_euler(ctx, jobs):
                 ctx.disagree("euler_step", case, x1e, m["ok"]["x"])
 
 
-def make_job(ctx, rng, kind=None, size1=False, allow_parallel=False, max_cells=8):
-    desc, phys, info = L.gen_system(rng, kind=kind, max_cells=1 if size1 else max_cells, chem_p=0.2, allow_parallel=allow_parallel)
+def _k_differs(phys):
+    return any(len(set(r["kf"])) > 1 or len(set(r["kr"])) > 1 for r in phys["reacs"])
+
+
+# directed configurations (rejection sampling over the random generator): each names a class of inputs on which a particular
+# kind of slip shows, so that every quick run contains them whatever the seed
+DIRECTED = {
+    "graph-hetero-edge": ("graph", False, lambda p: any(
+        p["vol"][a] != p["vol"][b] and any(p["D"][s][p["env"][a]] != p["D"][s][p["env"][b]] and p["D"][s][p["env"][a]] != 0 and p["D"][s][p["env"][b]] != 0
+                                          for s in range(p["ns"])) for (a, b, _, _) in p["space"]["edges"])),
+    "grid-y-periodic-z-reflecting": ("grid", False, lambda p: p["space"]["d"] >= 2 and p["space"]["py"] and not p["space"]["pz"] and any(any(v != 0 for v in row) for row in p["D"])),
+    "grid-z-periodic-y-reflecting": ("grid", False, lambda p: p["space"]["d"] >= 2 and p["space"]["pz"] and not p["space"]["py"] and any(any(v != 0 for v in row) for row in p["D"])),
+    "grid-x-periodic-only": ("grid", False, lambda p: p["space"]["w"] >= 2 and p["space"]["px"] and not p["space"]["py"] and any(any(v != 0 for v in row) for row in p["D"])),
+    "grid-several-environments": ("grid", False, lambda p: len(set(p["env"])) > 1 and _k_differs(p)),
+    "graph-several-environments": ("graph", False, lambda p: len(set(p["env"])) > 1 and _k_differs(p)),
+    "one-cell-not-first-environment": (None, True, lambda p: p["env"][0] != 0 and _k_differs(p)),
+    "one-cell-high-order": (None, True, lambda p: any(sum(r["sub"]) >= 2 and any(v != 0 for v in r["kf"]) for r in p["reacs"])),
+}
+
+
+def make_job(ctx, rng, kind=None, size1=False, allow_parallel=False, max_cells=8, directed=None):
+    if directed is not None:
+        kind, size1, pred = DIRECTED[directed]
+        best = None
+        for _ in range(400):
+            seed = rng.randrange(2 ** 62)
+            import random as _random
+            cand = L.gen_system(_random.Random(seed), kind=kind, max_cells=1 if size1 else max_cells, chem_p=0.1, min_env=2)
+            if pred(cand[1]):
+                best = seed
+                break
+        ctx.count("directed_" + directed + ("" if best is not None else "_not_found"))
+        if best is not None:
+            import random as _random
+            sub = _random.Random(best)
+            desc, phys, info = L.gen_system(sub, kind=kind, max_cells=1 if size1 else max_cells, chem_p=0.1, min_env=2)
+            return finish_job(rng, desc, phys, info)
+    return make_random_job(ctx, rng, kind, size1, allow_parallel, max_cells)
+
+
+def make_random_job(ctx, rng, kind=None, size1=False, allow_parallel=False, max_cells=8):
+    # one-cell systems (the only ones make_dxdtf accepts): mostly several environments, so that the cell is often not in the first
+    desc, phys, info = L.gen_system(rng, kind=kind, max_cells=1 if size1 else max_cells, chem_p=0.2, allow_parallel=allow_parallel,
+                                    min_env=(2 if (size1 and rng.random() < 0.7) else 1))
+    return finish_job(rng, desc, phys, info)
+
+
+def finish_job(rng, desc, phys, info):
     system = L.build_system(desc)
     us = L.rand_sys(rng)
     vals, _ = L.rand_state(rng, phys, us)
@@ -363,15 +532,19 @@ def make_job(ctx, rng, kind=None, size1=False, allow_parallel=False, max_cells=8
 
 def run(ctx):
     rng = ctx.rng
+    out_of_time(ctx)          # start the harness clock
     nsys = ctx.n(44, 900)
     jobs = []
     for k in range(nsys):
         if out_of_time(ctx):
             ctx.notes.append("stopped generating after %d systems (time budget)" % k)
             break
-        size1 = (k % 4 == 3)
+        size1 = (k % 3 == 2)
         kind = "grid" if k % 2 == 0 else "graph"
-        jb = make_job(ctx, rng, kind=kind, size1=size1, allow_parallel=False, max_cells=ctx.n(8, 16))
+        names = sorted(DIRECTED)
+        jb = make_job(ctx, rng, kind=kind, size1=size1, allow_parallel=False, max_cells=ctx.n(8, 16),
+                      directed=(names[k] if k < len(names) else (names[k % len(names)] if k % 10 == 0 else None)))
+        jb["reuse_script"] = (k % 3 == 1)
         jobs.append(jb)
         if len(jobs) >= 22:
             process(ctx, jobs)
@@ -432,16 +605,55 @@ def replay(ctx, rec):
         out.update(impl=(got[1] if got[0] == "error" else {"si": float(got[0]), "dim": list(got[1]), "sys": list(got[2])}), expected=float(exp))
         ok = got[0] != "error" and tuple(got[1]) == L.D_RATE and tuple(got[2]) == U and close(float(got[0]), exp, mag, rel=TOL)
         return ok, out
+    if case["kind"] in ("reuse-dxdtf", "reuse-euler"):
+        rec = case["reassign"]
+        chem = list(case.get("exp_chem") or [int(v) for v in system.chemostats])
+        if case["kind"] == "reuse-dxdtf":
+            U = tuple(case["U"])
+            system.make_dxdtf(L.us_obj(U))            # the first request for the closure
+            sys2 = system.copy()
+            phys2 = apply_reassignment(phys, sys2, rec)
+            fq, fr = L.si_factor(U, L.D_QTY), L.si_factor(U, L.D_RATE)
+            orc = L.oracle_rate(phys2, [Fraction(v) * fq for v in case["xU"]])
+            res = [float(v) for v in sys2.make_dxdtf(L.us_obj(U))(0.0, list(case["xU"]))]
+            ok = all(close(res[s], (Fraction(0) if chem[s] else orc[s][0]) / fr, orc[s][1] / fr, rel=TOL) for s in range(phys["ns"]))
+            out.update(impl=res, expected=[0.0 if chem[s] else float(orc[s][0] / fr) for s in range(phys["ns"])])
+            return ok, out
+        st_ = case["state"]
+        set_state(system, st_["vals"], tuple(st_["units"]), st_["as_unitarray"])
+        script, _ = euler_run(system, tuple(case["Uscript"]), rparse(case["dt_nat"]), 2)
+        phys2 = apply_reassignment(phys, script.system, rec)
+        traj2 = euler_rerun(script, 2)
+        ss = engine_io.samples(traj2)
+        fq = L.si_factor(L.sys_of(traj2.data.units.sys), L.D_QTY)
+        dt_si = Fraction(float(script.time_step.value)) * L.si_factor(L.sys_of(script.time_step.units.sys), L.D_TIME)
+        x0 = [Fraction(v) * fq for v in ss[0][1]]
+        x1 = [Fraction(v) * fq for v in ss[1][1]]
+        orc = L.oracle_rate(phys2, x0)
+        exp = [x0[e] if chem[e] else x0[e] + dt_si * orc[e][0] for e in range(len(x0))]
+        ok = all(close(float(a), b, abs(c) + dt_si * m[1], rel=TOL) for a, b, c, m in zip(x1, exp, x0, orc))
+        out.update(impl=[float(v) for v in x1], expected=[float(v) for v in exp])
+        return ok, out
     if case["kind"] == "dxdtf":
         U = tuple(case["U"])
         fq, fr = L.si_factor(U, L.D_QTY), L.si_factor(U, L.D_RATE)
         x_si = [Fraction(v) * fq for v in case["xU"]]
         orc = L.oracle_rate(phys, x_si)
-        chem = [int(v) for v in system.chemostats]
+        chem = list(case.get("exp_chem") or [int(v) for v in system.chemostats])
         try:
-            res = [float(v) for v in system.make_dxdtf(L.us_obj(U))(0.0, list(case["xU"]))]
+            f = system.make_dxdtf(L.us_obj(U))
+            res = [float(v) for v in f(0.0, list(case["xU"]))]
             ok = all(close(res[s], (Fraction(0) if chem[s] else orc[s][0]) / fr, orc[s][1] / fr, rel=TOL) for s in range(phys["ns"]))
             out.update(impl=res, expected=[0.0 if chem[s] else float(orc[s][0] / fr) for s in range(phys["ns"])])
+            if ok and case.get("x_call") is not None:
+                # a later call of the same closure (the recorded failing call)
+                xc = case["x_call"]
+                orc2 = L.oracle_rate(phys, [Fraction(v) * fq for v in xc])
+                mx = max([abs(v) for v in case["xU"]] + [0.0])
+                f(0.0, [v * 1.5 + 0.25 * mx for v in case["xU"]])
+                res2 = [float(v) for v in f(0.0, list(xc))]
+                ok = all(close(res2[s], (Fraction(0) if chem[s] else orc2[s][0]) / fr, orc2[s][1] / fr, rel=TOL) for s in range(phys["ns"]))
+                out.update(later_call=res2, later_expected=[0.0 if chem[s] else float(orc2[s][0] / fr) for s in range(phys["ns"])])
         except Exception as ex:  # noqa
             ok = False
             out.update(impl=repr(ex))
